@@ -71,7 +71,7 @@ Msg(j) ==
       nns == IF qr THEN Digit(j, 4) ELSE 0
       shape == Pick(ARShapes, Digit(j, 5))
   IN [id |-> (j * 31) % 65536, word |-> (IF qr THEN 32768 ELSE 0) + ((j * 17) % 32768),
-      q |-> [labels |-> Pick(QNames, Digit(j, 2)), type |-> Pick(<<1, 28, 15, 255>>, j), class |-> 1],
+      q |-> [labels |-> Pick(QNames, Digit(j, 2)), type |-> Pick(<<1, 28, 15, 255, 41, 6>>, j), class |-> 1],      \* incl. type codes the library special-cases as records
       an |-> [n \in 1..nan |-> Rec0(j, n)],
       ns |-> [n \in 1..nns |-> Rec0(j, n + 2)],
       ar |-> [n \in 1..Len(shape) |-> IF shape[n] = 1 THEN OptRec(j) ELSE Rec0(j, n + 3)]]
